@@ -124,6 +124,9 @@ def clone(op, t, memory_format=torch.preserve_format):
 
 @register_qbytestensor_op([torch.ops.aten.copy_])
 def copy_(op, dest, src):
+    if not isinstance(dest, QBytesTensor) or not isinstance(src, QBytesTensor):
+        # Copying from/to a regular Tensor
+        return qfallback(op, dest, src)
     assert dest.qtype == src.qtype
     dest._data = op(dest._data, src._data)
     dest._scale = op(dest._scale, src._scale)
